@@ -105,7 +105,7 @@ def build_geometries(cuqi, rng, thorough):
     gs = []
     dims2 = [(2, 3), (3, 2), (3, 3), (2, 2), (4, 3), (1, 4), (4, 1), (1, 1), (5, 2), (7, 9), (3, 5)]
     if thorough:
-        dims2 += [(a, b) for a in range(1, 8) for b in range(1, 10)]
+        dims2 += [(a, b) for a in range(1, 6) for b in range(1, 7)]
     for (a, b) in dims2:
         unit = a == 1 or b == 1
         for o in ("C", "F"):
@@ -181,7 +181,7 @@ def part_maps(ctx, cuqi, gs, thorough):
         add(g, "par2fun", ints(rng, (2, g.par_dim)), "malformed")
         add(g, "fun2par", ints(rng, (int(np.prod(g.fun_shape)) + 1,)), "malformed")
         add(g, "fun2par", ints(rng, (2,) + g.fun_shape), "malformed")
-    outs = ctx.lean.drive(lines)
+    outs = yield lines            # one driver call for all streams (see run)
 
     for (g, op, x, klass), out in zip(meta, outs):
         key = f"{g.name}:{op}:{klass}"
@@ -386,7 +386,7 @@ PAIRS = [(0.0, 1.0), (0.0, 0.1), (2.0, 0.7), (1.0, 0.3), (-1.0, 0.2), (0.0, 0.25
 def part_step(ctx, cuqi, thorough):
     from cuqi.geometry import StepExpansion
     rng = np.random.RandomState(ctx.seed + 1301)
-    nmax = 60 if thorough else 13
+    nmax = 44 if thorough else 13
     configs = []
     for pi, (x0, h) in enumerate(PAIRS):
         for n in range(2, nmax + 1):
@@ -402,7 +402,7 @@ def part_step(ctx, cuqi, thorough):
     for (x0, h, n, s, how, grid) in configs:
         lines.append("stepidx " + step_spec(grid, s, "mean", step_bounds_float(grid, s)))
         lines.append("stepidx " + step_spec(grid, s, "mean"))
-    outs = ctx.lean.drive(lines)
+    outs = yield lines            # one driver call for all streams (see run)
     stats = {"configs": 0, "impl_eq_exact": 0, "exact_ne_ideal": 0, "float_fragile": 0, "last_node_unassigned": 0, "empty_step": 0,
              "boundary_node_shifted_only": 0}
 
@@ -536,7 +536,7 @@ def part_kl(ctx, cuqi, thorough):
         lines.append(f"klpre {qv(c)} {q(tau)} {N} {enc(P)}")
         lines.append(f"klpost {qv(c)} {q(tau)} {N} {enc(D)}")
         meta.append((N, nm, gamma, tau, ns, geom, m, c, P, Fv, D))
-    outs = ctx.lean.drive(lines)
+    outs = yield lines            # one driver call for all streams (see run)
     for ci, (N, nm, gamma, tau, ns, geom, m, c, P, Fv, D) in enumerate(meta):
         o_coef, o_pre, o_post = outs[3 * ci: 3 * ci + 3]
         desc = {"N": N, "num_modes": nm, "decay_rate": gamma, "normalizer": tau, "batch": list(P.shape)}
@@ -670,7 +670,7 @@ def part_chains(ctx, cuqi, gs, thorough):
     g0 = pool[0]
     lines.append(f"samples {g0.spec} 1 0 {enc(ints(rng, (g0.par_dim, 2)))} f"); meta.append(("samples", g0, ints(rng, (g0.par_dim, 2)), True, False, ["f"]))
     lines.append(f"carr {g0.spec} 1 {enc(ints(rng, (g0.par_dim, 2)))} f"); meta.append(("carr", g0, ints(rng, (g0.par_dim, 2)), True, None, ["f"]))
-    outs = ctx.lean.drive(lines)
+    outs = yield lines            # one driver call for all streams (see run)
 
     prop = {"f": "funvals", "v": "vector", "p": "parameters"}
     for (kind, g, x, ip, iv, ops), out in zip(meta, outs):
@@ -805,7 +805,7 @@ def part_imgchk(ctx, thorough):
             x = ints(rng, (a * b,) if ns == 1 else (a * b, ns))
             lines.append(f"imgchk {a} {b} {enc(x)}")
             meta.append((a, b, ns, x))
-    outs = ctx.lean.drive(lines)
+    outs = yield lines            # one driver call for all streams (see run)
     for (a, b, ns, x), out in zip(meta, outs):
         desc = {"a": a, "b": b, "ns": ns}
         ctx.case("imgchk", desc, nontrivial=a > 1 and b > 1)
@@ -950,7 +950,7 @@ def part_reassign(ctx, cuqi, thorough):
                     kl_lines.append(f"klpre {qv(c)} {q(fresh.normalizer)} {N} {enc(P)}")
                     kl_meta.append((key, desc, a2, a, F, P))
             use(o)
-    outs = ctx.lean.drive(kl_lines)
+    outs = yield kl_lines         # one driver call for all streams (see run)
     for i, (key, desc, p_impl, f_impl, F, P) in enumerate(kl_meta):
         post, pre = parse_arr(outs[2 * i]), parse_arr(outs[2 * i + 1])
         ctx.case("reassign-kl-model", desc)
@@ -1014,7 +1014,7 @@ def part_mapped(ctx, cuqi, thorough):
                     lines.append(f"map {mdl[1]} par2fun {enc(P)}")
                     lines.append(f"map {mdl[1]} fun2par {enc(G_)}")
                 meta.append((iname, iinfo, mname, fm, fi, ns, inner, m, P, F, mdl))
-    outs = ctx.lean.drive(lines)
+    outs = yield lines            # one driver call for all streams (see run)
     tol = 1e-10
     for i, (iname, iinfo, mname, fm, fi, ns, inner, m, P, F, mdl) in enumerate(meta):
         desc = {"inner": iname, **iinfo, "map": mname, "batch": ns}
@@ -1268,7 +1268,7 @@ def part_dtypes(ctx, cuqi, thorough):
                 if spec is not None:
                     lines.append(f"samples {spec} 1 1 {enc(P64)} f,p"); lmeta.append((key, desc, "par", S, P))
                     lines.append(f"samples {spec} 0 {int(is_vec)} {enc(F64)} p"); lmeta.append((key, desc, "fun", None, F))
-    outs = ctx.lean.drive(lines)
+    outs = yield lines            # one driver call for all streams (see run)
     for (key, desc, kind, S, X), out in zip(lmeta, outs):
         ctx.case("dtype-model", desc)
         toks = out.split(" # ")
@@ -1412,7 +1412,7 @@ def part_inplace(ctx, cuqi, thorough):
             for i in range(ns):
                 if not _cmp(np.asarray(p2.samples[:, i]), np.asarray(call(conv, f2.samples[..., i].copy())).reshape(-1), tol):
                     ctx.fail(key + ":parameters", {**desc, "sample": i}, "fun2par of the current sample", short(p2.samples[:, i].tolist()), "parameters does not reflect the edited function values"); break
-    outs = ctx.lean.drive(lines)
+    outs = yield lines            # one driver call for all streams (see run)
     for (key, desc, x, is_par, cur), out in zip(lmeta, outs):
         ctx.case("inplace-model", desc)
         toks = out.split(" # ")
@@ -1657,18 +1657,28 @@ def run(ctx):
     ctx.trusted += ["numpy reshape/ravel/squeeze/broadcast-assign semantics as transcribed in Model/C13.lean (tied by the correspondence, incl. general F-order reshape)"]
     rng = np.random.RandomState(ctx.seed + 1299)
     gs = build_geometries(cuqi, rng, thorough)
-    part_maps(ctx, cuqi, gs, thorough)
-    part_step(ctx, cuqi, thorough)
-    part_kl(ctx, cuqi, thorough)
-    part_chains(ctx, cuqi, gs, thorough)
-    part_imgchk(ctx, thorough)
-    part_reassign(ctx, cuqi, thorough)
-    part_mapped(ctx, cuqi, thorough)
+    # Every stream is a generator: it builds its model lines (running the implementation where the lines depend on
+    # it), yields them, and receives the model outputs.  ALL lines go to the Lean driver in ONE call (each call
+    # queues on the shared build lock), then the streams are resumed in order.
+    from harness.props import c13_ext
+    gens = [part_maps(ctx, cuqi, gs, thorough), part_step(ctx, cuqi, thorough), part_kl(ctx, cuqi, thorough),
+            part_chains(ctx, cuqi, gs, thorough), part_imgchk(ctx, thorough), part_reassign(ctx, cuqi, thorough),
+            part_mapped(ctx, cuqi, thorough), part_dtypes(ctx, cuqi, thorough), part_inplace(ctx, cuqi, thorough)] + \
+        c13_ext.generators(ctx, cuqi, thorough)
+    live, blocks = [], []
+    for g in gens:
+        try:
+            blocks.append(next(g)); live.append(g)
+        except StopIteration:
+            pass
+    outs = ctx.lean.drive([l for b in blocks for l in b])
+    pos = 0
+    for g, b in zip(live, blocks):
+        try:
+            g.send(outs[pos:pos + len(b)])
+        except StopIteration:
+            pass
+        pos += len(b)
     part_scipy_dst(ctx, cuqi, thorough)
-    part_dtypes(ctx, cuqi, thorough)
-    part_inplace(ctx, cuqi, thorough)
     part_layouts(ctx, cuqi, gs, thorough)
     part_shape_maps(ctx, cuqi, thorough)
-    # session-3 extension streams (harness/props/c13_ext.py)
-    from harness.props import c13_ext
-    c13_ext.run_all(ctx, cuqi, thorough)     # part_scales, part_klhist, part_stephist
